@@ -178,6 +178,10 @@ func checkC13(c *Check) {
 		}
 		ruleXXHLength(c, p)
 		ruleXXHConstants(c, p)
+		ruleXXHThreshold(c, p, "R13.6")
+		ruleContentHashDiscipline(c, p, "R13.7")
+		c.RuleDoc["R13.7"] = "the frame's streaming hash state is fed in stream order only and reset at frame start only"
+		c.RuleDoc["R13.6"] = "short-input threshold is exactly 16 bytes"
 		ruleXXHBuffer(c, p)
 	}
 	checkPartition(c, "R13.4", "internal/xxh32", []string{"ChecksumZero", "update"}, []string{"gc"})
